@@ -1378,10 +1378,10 @@ pub fn run(a: &Args) {
             }
         }
         // the layer above the writer: step functions of StreamingPersistence on a virtual clock, WriteBuffer
-        { let mark = out.n_ops(); if let Err(msg) = guarded(crate::c12x::run_all(&mut out, &mut rng, a.n / 10 + 20, false)).await { report_panic(&mut out, "C12", "step-functions", &format!("seed {}", a.seed), mark, &msg); } }
+        { let mark = out.n_ops(); if let Err(msg) = guarded(crate::c12x::run_all(&mut out, &mut rng, (a.n / 10 + 20).min(20_000), false)).await { report_panic(&mut out, "C12", "step-functions", &format!("seed {}", a.seed), mark, &msg); } }
         // the concrete ObjectStore implementations (InMemory, LocalFs, FaultStore) under the model's store
-        { let mark = out.n_ops(); if let Err(msg) = guarded(crate::c12fs::run_all(&mut out, &mut rng, a.n / 30 + 10)).await { report_panic(&mut out, "C12", "object-stores", &format!("seed {}", a.seed), mark, &msg); } }
-        for _ in 0..(a.n / 2000 + 2) {
+        { let mark = out.n_ops(); if let Err(msg) = guarded(crate::c12fs::run_all(&mut out, &mut rng, (a.n / 30 + 10).min(1_500))).await { report_panic(&mut out, "C12", "object-stores", &format!("seed {}", a.seed), mark, &msg); } }
+        for _ in 0..(a.n / 2000 + 2).min(40) {
             let mut r = rng.fork();
             { let mark = out.n_ops(); if let Err(msg) = guarded(crate::c12fs::localfs_pipeline(&mut out, &mut r)).await { report_panic(&mut out, "C12", "localfs-pipeline", &format!("seed {}", a.seed), mark, &msg); } }
         }
@@ -1389,7 +1389,7 @@ pub fn run(a: &Args) {
     // the real worker pipeline (sink, bridge, bounded mailbox, actor) under tokio's paused clock
     let rt2 = tokio::runtime::Builder::new_current_thread().enable_all().start_paused(true).build().unwrap();
     rt2.block_on(async {
-        { let mark = out.n_ops(); if let Err(msg) = guarded(crate::c12x::run_all(&mut out, &mut rng, a.n / 20 + 10, true)).await { report_panic(&mut out, "C12", "worker-pipeline", &format!("seed {}", a.seed), mark, &msg); } }
+        { let mark = out.n_ops(); if let Err(msg) = guarded(crate::c12x::run_all(&mut out, &mut rng, (a.n / 20 + 10).min(4_000), true)).await { report_panic(&mut out, "C12", "worker-pipeline", &format!("seed {}", a.seed), mark, &msg); } }
     });
     crate::stream_api::report(&mut out, "C12");
     out.finish("case = one workload of 3..11 push/flush/compact operations on a real StreamingPersistence + Compactor over a counting, fault-injecting, snapshotting ObjectStore (0..2 faults {error without effect, error after a torn object} at generated call indices), followed by real recovery on the store image at EVERY call boundary (and inside every put); distinct by the op text incl. the fault placement; non-trivial iff some flush returned Ok and the run has a fault, an error or a compaction");
